@@ -169,8 +169,28 @@ let handle_expr words =
        "ok " ^ String.concat " | " (Stdlib.List.map (fun g -> String.concat " " (Stdlib.List.map show_visit g)) groups))
   | _ -> "badcase"
 
+(* ---- numeric tests ---- *)
+let big_n (s : string) : BinNums.coq_N =
+  (* decimal string -> N, without going through OCaml ints (values up to 2^64 and beyond) *)
+  let ten = n_of_int 10 in
+  let r = ref BinNums.N0 in
+  String.iter (fun ch -> r := BinNat.N.add (BinNat.N.mul !r ten) (n_of_int (Char.code ch - 48))) s; !r
+let big_z (s : string) : BinNums.coq_Z =
+  if s.[0] = '-' then BinInt.Z.opp (BinInt.Z.of_N (big_n (String.sub s 1 (String.length s - 1)))) else BinInt.Z.of_N (big_n s)
+let show_ob = function None -> "reject" | Some true -> "1" | Some false -> "0"
+let handle_num words =
+  match words with
+  | ["size"; op; v] -> show_ob (Numeric.size_test (bytes_of_hex op) (big_n v))
+  | ["num"; op; v] -> show_ob (Numeric.num_test (bytes_of_hex op) (big_n v))
+  | ["age"; period; op; now; ts] -> show_ob (Numeric.age_test (big_z period) (bytes_of_hex op) (big_z now) (big_z ts))
+  | ["newer"; e; r] -> if Numeric.newer (big_z e) (big_z r) then "1" else "0"
+  | ["perm"; k; pat; v] ->
+    let c = match k with "exact" -> Numeric.Exact | "all" -> Numeric.AtLeast | _ -> Numeric.AnyOf in
+    if Numeric.mode_bits_match c (big_n pat) (big_n v) then "1" else "0"
+  | _ -> "badcase"
+
 let handlers : (string * (string list -> string)) list ref =
-  ref [ ("xread", handle_xread); ("xargs", handle_xargs); ("xrepl", handle_xrepl); ("xnorm", handle_xnorm); ("walk", handle_walk); ("expr", handle_expr) ]
+  ref [ ("xread", handle_xread); ("xargs", handle_xargs); ("xrepl", handle_xrepl); ("xnorm", handle_xnorm); ("walk", handle_walk); ("expr", handle_expr); ("num", handle_num) ]
 
 let () =
   try while true do
